@@ -72,6 +72,35 @@ def scan():
                     clears.append([fn.name, ast.unparse(n.func.value)])
     return {"new": res, "lock_defined": lock_defined, "asserts": asserts, "cached": cached, "clears": clears}
 
+MUTATORS = {"pop", "popitem", "update", "clear", "append", "extend", "insert", "remove", "sort", "reverse", "setdefault", "add", "discard", "__setitem__", "__delitem__", "move_to_end"}
+
+def argument_mutations(filename):
+    """statements of a module's functions that change an object reachable from a parameter (augmented assignment to a parameter or to
+    an attribute / item of one, assignment to an attribute / item of one, a mutating method called on one, `del` of one's items) --
+    through the parameter itself or through a local name bound to an attribute chain of it.  [(function, line, source)]"""
+    tree = ast.parse(open(os.path.join(SRC, filename)).read())
+    found = []
+    def root(n):
+        while isinstance(n, (ast.Attribute, ast.Subscript)): n = n.value
+        return n.id if isinstance(n, ast.Name) else None
+    for fn in ast.walk(tree):
+        if not isinstance(fn, (ast.FunctionDef, ast.AsyncFunctionDef)): continue
+        tainted = {a.arg for a in fn.args.args + fn.args.kwonlyargs + fn.args.posonlyargs} - {"self", "cls", "p", "printer", "cycle"}
+        for st in ast.walk(fn):
+            if isinstance(st, ast.Assign) and len(st.targets) == 1 and isinstance(st.targets[0], ast.Name) and isinstance(st.value, (ast.Attribute, ast.Subscript, ast.Name)) and root(st.value) in tainted:
+                tainted.add(st.targets[0].id)
+        for st in ast.walk(fn):
+            if isinstance(st, ast.AugAssign) and root(st.target) in tainted and not (isinstance(st.target, ast.Name) and False):
+                # `x += 1` on a parameter rebinds an immutable number but mutates in place whatever defines __iadd__ / __imul__: reported
+                found.append([fn.name, st.lineno, ast.unparse(st)[:80]])
+            elif isinstance(st, ast.Assign) and any(isinstance(t, (ast.Attribute, ast.Subscript)) and root(t) in tainted for t in st.targets):
+                found.append([fn.name, st.lineno, ast.unparse(st)[:80]])
+            elif isinstance(st, ast.Delete) and any(isinstance(t, (ast.Attribute, ast.Subscript)) and root(t) in tainted for t in st.targets):
+                found.append([fn.name, st.lineno, ast.unparse(st)[:80]])
+            elif isinstance(st, ast.Call) and isinstance(st.func, ast.Attribute) and st.func.attr in MUTATORS and root(st.func.value) in tainted:
+                found.append([fn.name, st.lineno, ast.unparse(st)[:80]])
+    return found
+
 class Untranslatable(Exception):
     pass
 
